@@ -59,6 +59,7 @@ def run(prog: Program, rep: Report, tier: str) -> None:
     rep.rule("R16.2", "argument wiring: build_command receives (state, mode, target, fan, swing, current state) bound to the same-named parameters; the status frame carries state, mode, target ({:02x}), fan, swing in the order the state reply defines", 2)
     rep.rule("R16.3", "separate-swing discipline: for remotes with a separate swing command the main command gets swing OFF, a swing frame is written iff swing was requested and this is not update-only, and swing alone does not trigger the main command", 3)
     rep.rule("R16.4", "update-only mode sends the status frame and builds no IR command", 1)
+    rep.rule("R16.6", "the IR command builder keeps no memory: build_command / build_swing_command store nothing on the remote, so the code sent depends only on this call's arguments (incl. the state just reported) and the IR set", 2)
     rep.rule("R16.5", "never reports success after an empty reply: an empty login/state/command reply raises RuntimeError; nothing actionable raises RuntimeError with only the login frame written; every normal return is the response built from the last reply read", 3)
     rep.explanation = (
         "Decides structural clauses on every path of control_breeze_device for all 2^4 given/omitted combinations of the enum settings (target temperature, update flag, remote kind and all replies symbolic): "
@@ -200,6 +201,33 @@ def run(prog: Program, rep: Report, tier: str) -> None:
             nothing = not any(given[k] for k in ("state", "mode", "fan_level")) and not tgiven and (not sw_given or (is_sep and is_upd))
             if nothing and not sw_given and not (o.kind == "raise" and o.exc_name == "RuntimeError" and len(wr) == 1):
                 fail("R16.5", f"nothing actionable requested but the call {'returns' if o.kind == 'return' else 'raises ' + o.exc_name} after {len(wr)} frames")
+    from .. import remote_model as RM
+    for nm in ("build_command", "build_swing_command"):
+        bad66 = None
+        n66 = 0
+        if nm == "build_command":
+            runs = [RM.run_build_command(prog, "ON", "COOL", "ON", True, "OFF"), RM.run_build_command(prog, "OFF", "AUTO", "OFF", False, None)]
+        else:
+            from ..interp import Interp as _I
+            ci_ = prog.cls("aioswitcher.api.remotes:SwitcherBreezeRemote")
+            f_ = ci_.find_method(nm)
+            I_ = _I(prog)
+            st_ = I_.new_state()
+            sv_ = RM.remote_self(I_, st_, prog)
+            runs = [(I_, I_.run(f_, {f_.params[0]: sv_, f_.params[1]: RM.member(prog, "ThermostatSwing", "ON")}, st_), f_)] if f_ else []
+        for _i, outs_, f_ in runs:
+            for o in outs_:
+                n66 += 1
+                for e in o.state.events:
+                    if e.kind in ("store", "storeitem") and (e.target.startswith("self") or (isinstance(e.result, tuple) and e.result[:1] == ("obj",) and not o.state.heap[e.result[1]].fresh)):
+                        bad66 = f"{nm} stores {e.target} at {e.where.split(' ')[0]}: a later call can replay a command built for an earlier reported state"
+                    if e.kind == "readattr":
+                        bad66 = f"{nm} reads {e.target}, an attribute the constructor does not set (state carried between calls)"
+        wh = f"src/aioswitcher/api/remotes.py SwitcherBreezeRemote.{nm}"
+        if n66 == 0:
+            rep.undecided("R16.6", nm, wh, "no path explored")
+        else:
+            rep.check(bad66 is None, "R16.6", nm, wh, bad66 or "", key=f"R16.6|{nm}")
     rep.analysed["paths"] = n_paths
     texts = {
         "R16.1": "merged value per setting on every build_command call",
